@@ -50,7 +50,7 @@ def cq_event(e):
         return "(Op (BatchDelVS %s))" % cq_pairs(e.get("dels"))
     if op == "bdel_ing":
         return "(Op (BatchDelIng %s))" % cq_pairs(e.get("dels"))
-    if op in ("add_res", "upd_cfg"):
+    if op in ("add_res", "upd_cfg", "upd_eps"):
         return "(Op (AddResources %s))" % adds
     if op == "restart":
         return "(Restart %s)" % adds
@@ -242,7 +242,7 @@ def run_cases(run, args, tag, trace=False):
 
 
 def check(run):
-    n = 800 if run.tier == "quick" else 12000
+    n = 1200 if run.tier == "quick" else 12000
     run.proof_obligations()
     cases = run_cases(run, ["-seed", str(run.seed), "-n", str(n), "-tier", run.tier], run.tier)
     cleanup = cleanup_variant(cases)
